@@ -335,8 +335,8 @@ def highlevel(ctx, cov):
             if k < 0.35:
                 steps.append(("client", rng.choice(["101", "202", "303"])))
             else:
-                steps.append(("upload", rng.randrange(3), rng.random() < 0.15))
-        scenarios.append({"steps": steps, "N": rng.choice([1, 2, 1024]), "B": rng.choice([200, 10**9]), "redetect": rng.random() < 0.85})
+                steps.append(("upload", rng.randrange(5), rng.random() < 0.15))
+        scenarios.append({"steps": steps, "N": rng.choice([1, 2, 1024]), "B": rng.choice([200, 1500, 10**9]), "redetect": rng.random() < 0.85})
 
     def child():
         common.scrub_process_env()
@@ -346,11 +346,24 @@ def highlevel(ctx, cov):
         os.environ["XDG_CONFIG_HOME"] = os.path.join(work, "config")
         import tupimage
         from PIL import Image
-        imgs = []
+        import io
+        import random as _rnd
+        imgs, sizes = [], []
         for i in range(3):
             p = os.path.join(work, f"c04-hl-{i}.png")
             Image.new("RGB", (4 + i, 3), (10, 20 * i, 30)).save(p)
             imgs.append(p)
+            sizes.append(os.path.getsize(p))
+        # images 3 and 4 live in memory only: they are re-encoded for the transmission (another route of _upload); the
+        # bytes the terminal receives for them = the PNG encoding, computed here independently
+        noise = _rnd.Random(11)
+        for i in range(2):
+            im = Image.new("RGB", (12 + i, 12))
+            im.putdata([(noise.randrange(256), noise.randrange(256), noise.randrange(256)) for _ in range((12 + i) * 12)])
+            b = io.BytesIO()
+            im.save(b, format="PNG")
+            imgs.append(im)
+            sizes.append(len(b.getvalue()))
         tty_in = open("/dev/tty", "rb", buffering=0)
         out = []
         for si, sc in enumerate(scenarios):
@@ -373,7 +386,7 @@ def highlevel(ctx, cov):
                     n0 = len(stream.writes)
                     inst = t.upload(imgs[st[1]], force_upload=st[2])
                     sent = sum(len(w) for w in stream.writes[n0:])
-                    log.append(["upload", st[1], bool(st[2]), inst.id, sent, t._terminal_id, os.path.getsize(imgs[st[1]])])
+                    log.append(["upload", st[1], bool(st[2]), inst.id, sent, t._terminal_id, sizes[st[1]]])
             out.append(log)
             os.remove(db)
         return out
